@@ -11,6 +11,7 @@ unsigned verif_c_ci; unsigned verif_c_chk_calls; int verif_c_chk_type0; int veri
 size_t verif_c_chk_last; size_t verif_c_chk_first; size_t verif_c_chk_second; unsigned verif_c_vfy_calls; int verif_c_vfy_bad; size_t verif_c_vfy_prev_parent; int verif_c_vfy_second;
 int verif_l_ne_last; size_t verif_l_ne_a_of; size_t verif_l_gs_of; unsigned verif_l_calls;   /* trust-store lookup */
 unsigned verif_rv_calls; unsigned verif_rv_ci; size_t verif_rv_ci_snlen; int verif_rv_ci_seen; int verif_rv_ci_cmp; int verif_rv_ci_cmp_seen;   /* CRL entry walk */
+unsigned verif_cms_vfy_calls; int verif_cms_vfy_bad; size_t verif_cms_vfy_ctx; size_t verif_cms_vfy_certs;   /* CMS signer verification */
 size_t verif_rv_last_sn; size_t verif_rv_last_snlen; size_t verif_rv_ci_sn; int verif_rvm_last; size_t verif_rvm_n; size_t verif_rvm_a; size_t verif_rvm_b; unsigned verif_rvm_calls;
 #endif
 #endif
